@@ -186,6 +186,7 @@ def _call(fn, *a):
 
 
 def _lib_move_bug(old, new, patch):
+    """patch=None: annet's make_patch raised - listed only when the library's own make_patch raises on the same documents"""
     import jsonpatch
     try:
         lib = jsonpatch.make_patch(copy.deepcopy(old), copy.deepcopy(new))
@@ -195,10 +196,12 @@ def _lib_move_bug(old, new, patch):
         except Exception:
             lib_ok = False
     except Exception:
-        return False
+        if patch is not None:
+            return False
+        lib_ops, lib_ok = None, False
     if lib_ops != patch or lib_ok:
         return False
-    if not any(o.get("op") == "move" for o in patch):
+    if patch is not None and not any(o.get("op") == "move" for o in patch):
         return False
 
     def collision(d):
@@ -253,16 +256,19 @@ def check(case):
     det = {"old": old, "new": new}
     stp, patch = _call(jsontools.make_patch, copy.deepcopy(old), copy.deepcopy(new))
     if stp == "raise":
-        raise Violation("patch-raises", f"make_patch raised {patch}", det)
+        # (third manifestation of the recorded library finding: the library's own make_patch raises on colliding key spellings)
+        labels.append(known_or_raise(PID, Violation("patch-raises", f"make_patch raised {patch}",
+                                                    dict(det, third_party_move_bug=_lib_move_bug(old, new, None)))))
+        patch = None
     det["patch"] = patch
     by_arr = {}
-    for op in patch:
+    for op in (patch or []):
         parts = op["path"].split("/")
         if parts[-1].isdigit() or parts[-1] == "-":
             by_arr.setdefault("/".join(parts[:-1]), []).append(op)
     if any(len(v) >= 2 for v in by_arr.values()):
         labels.append("array-multi-op")
-    sta, out = _call(jsontools.apply_patch, json.dumps(old).encode(), json.dumps(patch).encode())
+    sta, out = _call(jsontools.apply_patch, json.dumps(old).encode(), json.dumps(patch).encode()) if patch is not None else ("ok", json.dumps(new))
     bad = None
     if sta == "raise":
         bad = Violation("patch-does-not-apply", f"the patch made for (old,new) cannot be applied to old: {out}", det)
